@@ -126,6 +126,14 @@ Reencode ==
     /\ UNCHANGED <<S, kind>>
     /\ Rec("Reencode", << >>, S, FALSE, None, << >>)
 
+\* a caller derives a value from the bitmap (OffsetRange as fragment.row does, or
+\* Freeze) and keeps it: the bitmap's containers are now frozen and shared, so later
+\* mutations must take the copy-on-write paths; the held value must keep these contents
+Hold ==
+    /\ En("Hold")
+    /\ UNCHANGED <<S, kind, snap, log>>
+    /\ Rec("Hold", << >>, S, FALSE, None, << >>)
+
 \* ---- reads (actions: they touch the lookaside)
 Read ==
     /\ UNCHANGED <<S, kind, snap, log>>
@@ -146,6 +154,7 @@ Next ==
             Import(T, clear, fmt, rs)
        \/ Optimize
        \/ Reencode
+       \/ Hold
        \/ Read
 
 Spec == Init /\ [][Next]_vars
